@@ -87,10 +87,15 @@ class Delivery(object):
                 take = chunks[i:i + rng.randint(1, 3)]
                 i += len(take)
                 members = []
+                same_name = rng.random() < 0.3
                 for j, ch in enumerate(take):
                     depth = rng.randint(0, 2)
                     sub = '/'.join('d%d' % rng.randint(0, 2) for _ in range(depth))
-                    name = posixpath.join(sub, 'm%d_%d.xtuml' % (self.n, j))
+                    if same_name:
+                        # the BridgePoint layout <pkg>/<pkg>.xtuml: equal file names in different directories
+                        name = posixpath.join('p%d' % j, sub, 'types.xtuml')
+                    else:
+                        name = posixpath.join(sub, 'm%d_%d.xtuml' % (self.n, j))
                     members.append((name, self.text_of(ch)))
                 decoys = [('readme.txt', 'this is not a model;'), ('x.xtuml.bak', 'INSERT INTO NOPE VALUES (1);'),
                           ('sub/notes.sql', 'CREATE TABLE NOPE2 (X INTEGER);')]
